@@ -59,7 +59,7 @@ func (e *Engine) protectedStore(o *Obj) {
 		e.solver.SetTimeout(e.cfg.AssertTimeout)
 		_, m = e.checkModel(e.inputVars())
 	}
-	e.recordViolation("protected-store", "write into "+o.Protected+" ("+o.Name+")", m)
+	e.recordViolationAlt("protected-store", "write into "+o.Protected+" ("+o.Name+")", m, e.ts.True)
 }
 
 func (e *Engine) store(p Ptr, v Value, in ssa.Instruction) {
